@@ -135,6 +135,15 @@ class Prop:
                     add('proj all ' + hx(b'1 // {enum: [1, ' + st + b']}'), 'invalid-utf8')
                     add('json 0 ' + hx(b'[' + st + b']'), 'invalid-utf8')
                     add('guess G ' + hx(st), 'invalid-utf8')
+        # 1c. every rule with a value of every JSON kind, on examples of every kind, alone and inside a rule-set of `or`
+        for name in ['min', 'max', 'minLength', 'maxLength', 'minItems', 'maxItems', 'precision', 'regex', 'type', 'enum', 'const', 'nullable', 'optional',
+                     'additionalProperties', 'or', 'allOf', 'exclusiveMinimum', 'exclusiveMaximum', 'unknownRule']:
+            for val in ['5', '"x"', 'true', 'null', '1.5', '[1]', '{}', '-1', '"@t"', '[]', '""', '[""]', '[null]', '{"a": 1}', '"@"', '"#"', '1e999', '99999999999999999999']:
+                for ex in ['1', '"a"', '[\n  1\n]', '{}', 'null', '@t']:
+                    text = (ex[0] + ' // {%s: %s}' % (name, val) + ex[1:]) if ex[0] == '[' else '%s // {%s: %s}' % (ex, name, val)
+                    add('proj all %s T 4074 J 227322' % hx(text), 'rule-value-kind')
+                add('proj all %s T 4074 J 227322' % hx('1 // {or: [{type: "integer", %s: %s}, "string"]}' % (name, val)), 'rule-value-kind')
+                add('proj all %s T 4074 J 227322' % hx('{\n  "k": "a" // {or: [{%s: %s}, {type: "string", %s: %s}]}\n}' % (name, val, name, val)), 'rule-value-kind')
         # 2. pathological sizes
         N = 200000 if big else 20000
         D = 20000 if big else 4000       # nesting depth: Example() and the OpenAPI conversion are quadratic in it (observed, recorded in DESIGN)
